@@ -96,6 +96,21 @@ def run(ck, F, E):
     fi = E.info[mp.path]
     IN, OUT = E.kill_states(fi)
     run_calls = [c for c in mp.calls() if c.bb in arm and sfx(c.callee, "Interpreter::run_next_statement")]
+    base = set()
+    host, host_region = mp, arm
+    if not run_calls:
+        # the arm's body may have been given a name (`"RUN" => self.run_program_from_start()?`): descend into the one
+        # Interpreter method called in the arm that itself starts execution; what the arm killed before the call still counts
+        for hc in [c for c in mp.calls() if c.bb in arm and c.is_local and c.callee in F.bodies]:
+            hb = F.bodies[hc.callee]
+            inner = [c for c in hb.calls() if sfx(c.callee, "Interpreter::run_next_statement")]
+            if len(inner) == 1 and hb.self_adt == INTERP:
+                base = set(IN.get(hc.bb) or set())
+                host, host_region = hb, set(hb.reachable())
+                fi = E.info[hb.path]
+                IN, OUT = E.kill_states(fi)
+                run_calls = inner
+                break
     if len(run_calls) != 1:
         ck.bad("C10:RUN-arm:run_next_statement", "RUN arm",
                "expected exactly one run_next_statement call in the RUN arm, found %d" % len(run_calls), mp.span)
@@ -103,8 +118,9 @@ def run(ck, F, E):
     rc = run_calls[0]
     # state just before the call = IN of its block transferred through the block's statements (no calls before
     # the terminator inside one block), so IN[bb] after statements == state at the call
-    state = IN.get(rc.bb) or set()
+    state = set(IN.get(rc.bb) or set()) | base
     K = top_fields(state)
+    mp_outer, mp, arm = mp, host, host_region
     # location: killed by reset_runtime_state, then deliberately set to (first(), 0)
     rf = F.one("Program::run_from_first_numbered_line")
     rr = F.one("Program::reset_runtime_state")
